@@ -274,3 +274,6 @@ _add("C19", "Proved in addition: the numpy.isclose / numpy.allclose handlers rea
             "operands whose units differ, also when the same object is passed twice.")
 _add("C01", "arctan2 is under contract like the other commensurability-requiring ufuncs (quantity / bare scalar operands).")
 _add("C04", "arctan2: the angle of the SI magnitudes as a pure number (invariance under a common positive rescaling assumed).")
+_add("C01", "Item assignment a[i] = q is under contract: refused for a value of another dimension, target and value untouched.")
+_add("C18", "Item assignment: a refused assignment leaves the target as it was; a successful one writes the value's physical "
+            "quantity in the target's unit into the selected elements only, keeps the target's unit and the value.")
